@@ -32,6 +32,10 @@ TRIAGE = [
   'l1=l2=12, window=2 (ri2=2, ri3=11): wps_expand_slice with rb=4 returns values shifted by one column relative to the full expansion (31 of 48 slices differ)'),
  ('F46', lambda c: c['rule'] == 'R-MAP' and 'region B map' in c['construct_key'] and 'expand' in c['function'],
   'l1=l2=7, window=6 (region B = rows 2..5): wps_expand_slice with cb>=2 returns wrong rows and corrupts the heap (double free or corruption at exit)'),
+ ('F47', lambda c: c['rule'] == 'R-REC' and c['construct_key'] == 'max_length_diff exit',
+  'a=[0..5], b=[0,1,2], max_length_diff=1: dtw.distance/distance_fast/warping_paths return inf, dtw.warping_paths_fast and warping_path_fast return 3.742'),
+ ('F39', lambda c: c['rule'] == 'R-CLAMP' and 'warping_paths' in c['function'],
+  'rng(2) normal(10) pairs, window=1, psi=(0,0,0,8): dtw.warping_paths 3.0906 vs dtw.warping_paths_fast 3.0682 (200 of 200 random pairs differ)'),
  ('F22', lambda c: c['rule'] == 'R-MON' and 'reported parameter' in c['construct_key'],
   'distance_to_similarity(D, method="reciprocal", cover_quantile=0.5, return_params=True): re-applying with the reported r gives a different array (round 0)'),
 ]
